@@ -26,6 +26,9 @@ def check(A, only_decode=False, prefix='C02'):
     # ------------------------------------------------------------- encode
     if not only_decode:
         _encode_part(A, m, enc)
+        from . import sockrules as S
+        for fl in S.FLAVOURS:
+            S.post_request(A, fl, 'C02')
     _decode_part(A, m, dec, prefix)
 
 
